@@ -1,7 +1,7 @@
 # per-property run configuration for bin/vcheck
 MAP_CONFIG = ["internal/config/config.go", "internal/config/validation.go", "internal/k8s/controllers/config_conversion.go", "internal/k8s/controllers/config_controller.go", "internal/k8s/controllers/pool_controller.go"]
 
-MAP_ALLOC = ["internal/allocator/allocator.go", "controller/main.go", "controller/service.go", "internal/config/config.go",
+MAP_ALLOC = ["internal/allocator/allocator.go", "internal/allocator/k8salloc/k8salloc.go", "controller/main.go", "controller/service.go", "internal/config/config.go",
              "internal/k8s/controllers/config_conversion.go", "internal/k8s/controllers/pool_controller.go",
              "internal/k8s/controllers/service_controller.go", "internal/k8s/controllers/service_controller_reload.go"]
 
